@@ -392,6 +392,27 @@ def struct_object_attrs(repo):
     return out
 
 
+def ctor_stores(repo, ci, max_paths=512):
+    """attr -> set of canonical values ``__init__`` leaves in ``self.attr`` over its non-raising paths
+    (base-class constructors called as ``Base.__init__(self, ...)`` / ``super().__init__(...)`` are
+    followed), in terms of the constructor's parameters"""
+    init = repo.method(ci, '__init__')
+    out = {}
+    if init is None:
+        return out
+    w = repo.walker(inline_depth=3, max_paths=max_paths)
+    for p in w.paths(init.node, cls=ci):
+        if p.raises():
+            continue
+        last = {}
+        for e in p.all_effects():
+            if e.kind == 'store_attr' and isinstance(e.obj, ast.Name) and e.obj.id == 'self':
+                last[e.name] = e.value
+        for k, v in last.items():
+            out.setdefault(k, set()).add(canon(v))
+    return out
+
+
 def path_facts(p):
     """the literals known to hold on a path: the conjuncts of its guards plus what unit
     propagation derives from disjunctions (``not (a and b)`` with ``a`` known gives ``not b``)"""
